@@ -51,6 +51,7 @@ type noteCase struct {
 	Known    []keySpec
 	Existing []keySpec // signatures already on the note before Sign (as n.Sigs or n.UnverifiedSigs)
 	ExUnver  []bool    // per existing: goes to UnverifiedSigs
+	ExStale  bool      // the existing signatures were made over an earlier version of the text
 	Muts     []mutation
 }
 
@@ -257,6 +258,7 @@ func genCase(t *rapid.T) noteCase {
 		}
 		c.ExUnver = append(c.ExUnver, rapid.Bool().Draw(t, "exunver"))
 	}
+	c.ExStale = ne > 0 && rapid.IntRange(0, 2).Draw(t, "exstale") == 0
 	nm := []int{0, 0, 1, 1, 1, 2, 3}[rapid.IntRange(0, 6).Draw(t, "nmuts")]
 	for i := 0; i < nm; i++ {
 		c.Muts = append(c.Muts, mutation{
@@ -487,11 +489,15 @@ func check(c noteCase) pbt.Result {
 		}
 		var hb [4]byte
 		binary.BigEndian.PutUint32(hb[:], k.hash())
+		signed := []byte(c.Text)
+		if c.ExStale {
+			signed = []byte("an earlier version of the text\n" + c.Text)
+		}
 		var sig []byte
 		if k.Real {
-			sig = ed25519.Sign(getReal(k).priv, []byte(c.Text))
+			sig = ed25519.Sign(getReal(k).priv, signed)
 		} else {
-			sig = mockSig(k.ID, []byte(c.Text))
+			sig = mockSig(k.ID, signed)
 		}
 		s := note.Signature{Name: k.Name, Hash: k.hash(), Base64: base64.StdEncoding.EncodeToString(append(hb[:], sig...))}
 		if c.ExUnver[i] {
@@ -505,6 +511,40 @@ func check(c noteCase) pbt.Result {
 	if (err == nil) != wantSignOK {
 		r.Fail = pbt.Failf("sign-accept", "Sign(text %q, %d signers) err=%v; text ends in newline=%v, invalid signer name=%v", c.Text, len(signers), err, strings.HasSuffix(c.Text, "\n"), badSigner)
 		return r
+	}
+	if err == nil {
+		// Sign's output is fully determined by its documentation: the text, a blank line, the existing
+		// signatures (verified ones first) except those whose key one of the signers uses, then one new
+		// signature per signer, in order
+		var want bytes.Buffer
+		want.WriteString(c.Text)
+		want.WriteString("\n")
+		signerKey := map[string]bool{}
+		for _, k := range c.Signers {
+			signerKey[fmt.Sprintf("%s+%08x", k.Name, k.hash())] = true
+		}
+		for _, list := range [][]note.Signature{n.Sigs, n.UnverifiedSigs} {
+			for _, s := range list {
+				if !signerKey[fmt.Sprintf("%s+%08x", s.Name, s.Hash)] {
+					fmt.Fprintf(&want, "— %s %s\n", s.Name, s.Base64)
+				}
+			}
+		}
+		for _, k := range c.Signers {
+			var hb [4]byte
+			binary.BigEndian.PutUint32(hb[:], k.hash())
+			var sig []byte
+			if k.Real {
+				sig = ed25519.Sign(getReal(k).priv, []byte(c.Text))
+			} else {
+				sig = mockSig(k.ID, []byte(c.Text))
+			}
+			fmt.Fprintf(&want, "— %s %s\n", k.Name, base64.StdEncoding.EncodeToString(append(hb[:], sig...)))
+		}
+		if !bytes.Equal(msg, want.Bytes()) {
+			r.Fail = pbt.Failf("sign-output", "Sign produced\n%q\nthe documented form is\n%q", msg, want.Bytes())
+			return r
+		}
 	}
 	if err != nil {
 		// still exercise Open on an unsigned rendering so that the parser sees the text
